@@ -350,7 +350,7 @@ theorem dict_refines (E : Env) (kf vf : Option FieldSpec) (d : List (Val × Val)
       simp [he, Except.toOption] at h
       subst h
       obtain ⟨k', v'⟩ := kv
-      simp only [dstep, bdstep, he]
+      simp only [dstep, bdstep, he, Proxy.presentUnder_of_ok d he, Option.getD_some]
       cases dictLookup k' d <;> simp
   | ior pairs =>
     simp only [normDOp] at h
@@ -381,12 +381,16 @@ theorem dict_single_rejected_unchanged (E : Env) (kf vf : Option FieldSpec) (d :
     cases he : validateEntry E kf vf k v <;> simp [he] at h ⊢
   · rename_i k v
     simp only [dstep] at h ⊢
-    cases he : validateEntry E kf vf k (v.getD .none) with
-    | error e => simp
-    | ok kv =>
-      obtain ⟨k', v'⟩ := kv
-      simp only [he] at h ⊢
-      cases hl : dictLookup k' d <;> simp [hl] at h
+    cases hp : Proxy.presentUnder E kf d k with
+    | some old => simp
+    | none =>
+      simp only [hp] at h ⊢
+      cases he : validateEntry E kf vf k (v.getD .none) with
+      | error e => simp
+      | ok kv =>
+        obtain ⟨k', v'⟩ := kv
+        simp only [he] at h ⊢
+        cases hl : dictLookup k' d <;> simp [hl] at h
 
 def env0 : Env where
   parseFloat := fun _ => none
